@@ -393,20 +393,24 @@ Section Order2.
     - tr; [exact S3|apply IH].
   Qed.
 
+  Lemma o_wait_reset c ids s : stepo s (wait_reset sc c ids s).
+  Proof. apply stepo_same; [apply wait_reset_tbl|apply wait_reset_tr]. Qed.
+
   Lemma o_wait_task c g ids s : stepo s (wait_task sc c g ids s).
   Proof.
     unfold wait_task. cbv zeta.
     pose proof (o_wait_start c g ids s) as S1.
     destruct (wait_start c g ids s) as [s1 w1]. cbn [fst] in S1.
-    destruct (w_pending w1); [exact S1|].
+    destruct (w_pending w1); [tr; [exact S1|apply o_wait_reset]|].
     destruct (match e_watch_err_at (sc_env sc) with Some n => Nat.eqb n (snd g) | None => false end);
       [tr; [exact S1|apply o_set_abort]|].
     pose proof (o_deliver c g ids (w_deliv (nth (snd g) (e_waits (sc_env sc)) (mkW [] WTimeout))) s1 w1) as S2.
     destruct (deliver sc c g ids _ s1 w1) as [s2 w2]. cbn [fst] in S2.
     tr; [exact S1|]. tr; [exact S2|].
-    destruct (w_pending w2); [apply stepo_refl|].
+    destruct (w_pending w2); [apply o_wait_reset|].
     destruct (w_end _).
-    - destruct (match c with AllCurrent => _ | AllNotFound => _ end); [apply o_wait_timeout|apply o_set_abort].
+    - destruct (match c with AllCurrent => _ | AllNotFound => _ end);
+        [tr; [apply o_wait_timeout|apply o_wait_reset]|apply o_set_abort].
     - apply o_set_abort.
   Qed.
 
@@ -449,6 +453,8 @@ Section Order2.
   Lemma o_apply_one g s p : local_ok pl p -> stepo s (apply_one sc pl g s p).
   Proof.
     intros [Hin Hl]. unfold apply_one. destruct (p_local p) as [l|] eqn:EL; [|apply stepo_refl].
+    destruct (negb (kind_known sc (r_known s) (p_id p))).
+    { intros H0. exact (invT_apply sc pl _ _ g (p_id p) AFail AFailed 0%N 0%Z eq_refl Hin H0). }
     pose proof (policy_apply_filter_same s (p_id p)) as [PT PR].
     destruct (policy_apply_filter sc s (p_id p)) as [s1 f1]. cbn [fst] in PT, PR.
     assert (S1 : stepo s s1) by (apply stepo_same; assumption).
@@ -649,8 +655,8 @@ Section Order4.
   Theorem order_run_state c0 pl locals : run_plan sc c0 = Some (pl, locals) -> Inv sc pl (run_state sc c0).
   Proof.
     unfold run_plan, run_state. cbv zeta.
-    pose proof (inv_list_tr sc (init_state c0)) as T1. pose proof (inv_list_cl sc (init_state c0)) as [_ B1].
-    destruct (inv_list sc (init_state c0)) as [s1 r1]. cbn [fst] in *.
+    pose proof (inv_list_tr sc (init_state sc c0)) as T1. pose proof (inv_list_cl sc (init_state sc c0)) as [_ B1].
+    destruct (inv_list sc (init_state sc c0)) as [s1 r1]. cbn [fst] in *.
     destruct r1 as [st|]; [|discriminate].
     match goal with |- context [fetch_all sc s1 ?c] => set (cand := c) in * end.
     pose proof (fetch_all_tr sc cand s1) as T2. pose proof (fetch_all_cl sc cand s1) as [_ [B2 _]].
@@ -834,7 +840,7 @@ Section Order5.
     - intros DN w H. exact (last_wait_is_fun _ _ _ _ H (LW DN)).
   Qed.
 
-  Lemma bp_prune_live locals pobjs p : In p (pl_prune (build_plan sc locals pobjs)) -> exists c, p = pobj_of_live c.
+  Lemma bp_prune_live known locals pobjs p : In p (pl_prune (build_plan sc known locals pobjs)) -> exists c, p = pobj_of_live c.
   Proof.
     unfold build_plan. cbv zeta. destruct (kahn _ _ _) as [layers cyc]. cbn [pl_prune].
     intros H. apply filter_In in H. destruct H as [H _]. apply in_map_iff in H. destruct H as [c [<- _]].
@@ -847,7 +853,7 @@ Section Order5.
     intros RP Hp Ha. unfold prune_ids in Hp. apply in_map_iff in Hp. destruct Hp as [p [<- Hp]].
     assert (L : exists c, p = pobj_of_live c).
     { revert Hp. clear Ha. unfold run_plan in RP. cbv zeta in RP.
-      destruct (inv_list sc (init_state c0)) as [s1 r1]. destruct r1 as [st|]; [|discriminate].
+      destruct (inv_list sc (init_state sc c0)) as [s1 r1]. destruct r1 as [st|]; [|discriminate].
       destruct (fetch_all sc s1 _) as [s2 r2]. destruct r2 as [pobjs|]; [|discriminate].
       injection RP as <- <-. apply bp_prune_live. }
     destruct L as [c ->].
